@@ -3,23 +3,27 @@
 (* is built from the layout tables, so a kind or field added to the tables is *)
 (* enumerated without further work.                                           *)
 (*   value classes of a field: Z all-zero, M all-ones, S sign bit only,       *)
-(*   Q largest positive, P a pattern that differs from field to field         *)
+(*   Q largest positive, P a pattern that differs from field to field,        *)
+(*   T octets that read as text (colons - a binary Ethernet address of five   *)
+(*   0x3a octets is still an address)                                         *)
 EXTENDS OFWire
 
 Classes == {"Z", "M", "S", "Q", "P"}
-DevClasses == {"M", "S", "Q", "P"}
+DevClasses == {"M", "S", "Q", "P", "T"}
 Pat(c, w, salt) ==
   CASE c = "Z" -> Zeros(w)
     [] c = "M" -> Fill(w, 255)
     [] c = "S" -> <<128>> \o Zeros(w - 1)
     [] c = "Q" -> <<127>> \o Fill(w - 1, 255)
     [] c = "P" -> [i \in 1..w |-> ((salt * 16 + i) % 255) + 1]
+    [] c = "T" -> [i \in 1..w |-> IF i < w THEN 58 ELSE 1]
 StrPat(c, w, salt) ==                                   \* text: no NUL inside
   CASE c = "Z" -> <<>>
     [] c = "M" -> Fill(w, 255)                          \* fills the field: no terminator on the wire
     [] c = "S" -> <<128>>
     [] c = "Q" -> [i \in 1..(w - 1) |-> 255 - (i % 7)]  \* one NUL of padding
     [] c = "P" -> [i \in 1..(w \div 2) |-> ((salt * 16 + i) % 255) + 1]
+    [] c = "T" -> [i \in 1..(w \div 2) |-> 58]
 RestPat(c, n) ==
   CASE c = "Z" -> Zeros(n) [] c = "M" -> Fill(n, 255) [] OTHER -> [i \in 1..n |-> (i * 7 + 3) % 256]
 
